@@ -623,8 +623,38 @@ func (g *Gen) block(d, ind int, loops []string) {
 		g.trailingComment()
 		g.w("\n")
 	}
+	if g.R.Intn(10) == 0 {
+		g.labeledTail(ind+1, true, "block")
+	}
 	g.indent(ind)
 	g.w("}")
+}
+
+// labeledTail: a labelled EMPTY statement closing a statement list (the body of a block, of a case clause or of a
+// communication clause): `L: ;`, `L:` newline `;`, or - only where a `}` follows (beforeBrace) - `L:` alone (implicit
+// empty statement).  Before `case`/`default` the empty statement must be written: `L:` newline `case` is a syntax error.
+func (g *Gen) labeledTail(ind int, beforeBrace bool, where string) {
+	g.labels++
+	lab := fmt.Sprintf("E%d", g.labels)
+	g.indent(ind)
+	pos := "-nonfinal"
+	if beforeBrace {
+		pos = "-final"
+	}
+	switch k := g.R.Intn(3); {
+	case k == 0 && beforeBrace:
+		g.feat("tail:label-implicit-empty:" + where + pos)
+		g.w(lab + ":")
+	case k == 1:
+		g.feat("tail:label-newline-semicolon:" + where + pos)
+		g.w(lab + ":\n")
+		g.indent(ind)
+		g.w(";")
+	default:
+		g.feat("tail:label-semicolon:" + where + pos)
+		g.w(lab + ": ;")
+	}
+	g.w("\n")
 }
 
 func (g *Gen) simpleStmt(d int, c ectx) {
@@ -678,7 +708,19 @@ func (g *Gen) stmt(d, ind int, loops []string, last bool) {
 		g.simpleStmt(1, c)
 		return
 	}
-	switch g.R.Intn(26) {
+	switch g.R.Intn(27) {
+	case 26:
+		// a label in front of ANY statement (same line or next line)
+		g.feat("stmt:labeled-any")
+		g.labels++
+		g.w(fmt.Sprintf("A%d:", g.labels))
+		if g.R.Bool() {
+			g.w(" ")
+		} else {
+			g.w("\n")
+			g.indent(ind)
+		}
+		g.stmt(d-1, ind, loops, last)
 	case 0, 1, 2:
 		g.simpleStmt(d, c)
 	case 3:
@@ -864,6 +906,8 @@ func (g *Gen) stmt(d, ind int, loops []string, last bool) {
 			} else if lab != "" && g.R.Bool() {
 				g.indent(ind + 1)
 				g.w("break " + lab + "\n")
+			} else if g.R.Intn(6) == 0 {
+				g.labeledTail(ind+1, i == nc-1, "case")
 			}
 		}
 		g.indent(ind)
@@ -911,6 +955,9 @@ func (g *Gen) stmt(d, ind int, loops []string, last bool) {
 				g.stmt(d-2, ind+1, loops, false)
 				g.w("\n")
 			}
+			if g.R.Intn(6) == 0 {
+				g.labeledTail(ind+1, i == nc-1, "typecase")
+			}
 		}
 		g.indent(ind)
 		g.w("}")
@@ -936,10 +983,13 @@ func (g *Gen) stmt(d, ind int, loops []string, last bool) {
 			default:
 				g.w("default:\n")
 			}
-			if g.R.Bool() {
+			for ns := g.R.Intn(3); ns > 0; ns-- {
 				g.indent(ind + 1)
 				g.stmt(d-2, ind+1, loops, false)
 				g.w("\n")
+			}
+			if g.R.Intn(4) == 0 {
+				g.labeledTail(ind+1, i == nc-1, "comm")
 			}
 		}
 		g.indent(ind)
